@@ -209,7 +209,9 @@ def handle (j : Json) : D Json := do
         (if !stvValidProfile p then Outcome.raised .typeError else Outcome.raised .valueError))
     else
     pure (jOutcome (fun (r : STVResult) => Json.mkObj [("threshold", jInt r.threshold),
-      ("states", jStates r.states), ("profiles", .arr (r.profiles.map jProfile).toArray)])
+      ("states", jStates r.states), ("profiles", .arr (r.profiles.map jProfile).toArray),
+      -- the hypothesis `hfpv` of C07_droop_psc_fractional, evaluated on this input
+      ("fpv_link", .bool (decide (firstPlaceVotes p = .ok (tallies (stvInitState p).bs p.cands))))])
       (stvRun cfg p ω (quotaOk j)))
   | "plurality" => do
     let p ← getProfile (← field j "profile")
